@@ -583,13 +583,16 @@ Definition r_send (c : nat) (s : state) : option state :=
             let k1 := set_ops k (s_header k) rest (s_trailerq k) in
             if s_done k then
               Some (add_log (set_call s c k1) [EvSendRet c (match s_rerr k with Some e => Some e | None => None end)])
-            else if sctx_done k || wfail s then
+            else if (b <? 0) || sctx_done k || wfail s then
+                (* the codec rejects the message (negative token: Marshal fails before anything is written), or the
+                   write fails: teardown(false) *)
                 let ch := if k_reg k1 then mkChan (cbuf (k_chan k1)) true else k_chan k1 in
                 let k2 := mkCall (k_unary k1) (k_payload k1) (k_pc k1) (k_id k1) ch false (k_ctx k1) (s_loop k1) true
                                  (s_latch k1) (s_rchclosed k1) (s_done k1) (s_rerr k1) (s_trl k1) (l_rerr k1) (l_trl k1)
                                  (l_hastrl k1) (l_abort k1) (s_recv k1) (s_header k1) (s_sendq k1) (s_trailerq k1) in
                 Some (add_log (set_call s c k2)
-                              [EvSendRet c (Some (if rerr s then EConn else if sctx_done k then ctx_raw k else EWrite))])
+                              [EvSendRet c (Some (if b <? 0 then EUnmarshal
+                                                  else if rerr s then EConn else if sctx_done k then ctx_raw k else EWrite))])
             else Some (add_log (set_call s c k1) [EvWrite (body_env (k_id k) b); EvSendRet c None])
           else None
       | None :: rest =>
